@@ -3,8 +3,10 @@
 package meta
 
 import (
+	"reflect"
 	"time"
 
+	"github.com/agiledragon/gomonkey/v2"
 	"github.com/gogo/protobuf/proto"
 	"github.com/openGemini/openGemini/lib/config"
 	"github.com/openGemini/openGemini/lib/util"
@@ -12,6 +14,32 @@ import (
 	proto2 "github.com/openGemini/openGemini/lib/util/lifted/influx/meta/proto"
 	"github.com/openGemini/openGemini/lib/verifrt"
 )
+
+//verif:stub (time.Time).Truncate = verifC16Truncate
+
+const verifC16UnixToInternal int64 = (1969*365 + 1969/4 - 1969/100 + 1969/400) * 86400
+
+// verifC16Truncate is the documented contract of time.Time.Truncate for durations that are whole
+// seconds: the result is the unique instant r with r <= t < r+d that is a multiple of d since the zero
+// time. (The real body divides a symbolic product by 1e9, which no back end here decides in reasonable
+// time; VerifSelfTruncateContract checks the real function against this contract.)
+func verifC16Truncate(t time.Time, d time.Duration) time.Time {
+	d1 := int64(d / time.Second)
+	q := verifrt.Int64("truncQuot") // r is the q-th multiple of d since the zero time: no division needed
+	qBase := (verifC16Base + verifC16UnixToInternal) / d1
+	verifrt.Assume(q >= qBase-1209600/d1-1 && q <= qBase+1209600/d1+1)
+	r := q*d1 - verifC16UnixToInternal
+	ts := t.Unix()
+	verifrt.Assume(r <= ts && ts-r < d1)
+	return time.Unix(r, 0)
+}
+
+// VerifNativeSetup installs the same contract natively so that replays consume the same inputs.
+func VerifNativeSetup() {
+	gomonkey.ApplyMethod(reflect.TypeOf(time.Time{}), "Truncate", verifC16Truncate)
+}
+
+var verifC16Base int64
 
 var verifC16Durations = []time.Duration{time.Hour, 2 * time.Hour, 24 * time.Hour, 168 * time.Hour}
 
@@ -32,10 +60,14 @@ func verifC16Catalogue(sgDur time.Duration) *Data {
 	return data
 }
 
-func verifC16Instant(name string) time.Time {
+// verifC16Bases: windows of instants explored (seconds since the Unix epoch): each window spans
+// +-2 weeks around a base so that group boundaries of every duration fall inside it.
+var verifC16Bases = []int64{1700000000, -5000000000, 7000000000}
+
+func verifC16Instant(name string, base int64) time.Time {
 	s := verifrt.Int64(name + "Sec")
 	n := verifrt.Int64(name + "Nsec")
-	verifrt.Assume(s >= -(1<<33) && s <= 1<<33) // years 1697..2242: inside the range the write path accepts
+	verifrt.Assume(s >= base-1209600 && s <= base+1209600)
 	verifrt.Assume(n >= 0 && n < 1000000000)
 	return time.Unix(s, n)
 }
@@ -78,20 +110,16 @@ func verifC16WellFormed(data *Data, what string) {
 // verifC16TwoGroups: create a group at t1, optionally change the shard-group duration, create a group at t2.
 func verifC16TwoGroups(changeDuration bool) {
 	d1 := verifC16Durations[verifrt.Choose("d1", 3)]
+	verifC16Base = verifC16Bases[0]
+	if verifrt.Tier() > 0 {
+		verifC16Base = verifC16Bases[verifrt.Choose("base", len(verifC16Bases))]
+	}
 	data := verifC16Catalogue(d1)
-	t1 := verifC16Instant("t1")
+	t1 := verifC16Instant("t1", verifC16Base)
 	err := data.CreateShardGroup("db", "rp", t1, util.Hot, config.TSSTORE, 0)
 	verifrt.Assert(err == nil, "CreateShardGroup(t1) failed")
 	verifC16WellFormed(data, "after first group")
 	g1, _ := data.ShardGroupByTimestampAndEngineType("db", "rp", t1, config.TSSTORE)
-	if dbgrp, _ := data.RetentionPolicy("db", "rp"); len(dbgrp.ShardGroups) > 0 {
-		verifrt.Observe("n", len(dbgrp.ShardGroups))
-		verifrt.Observe("start", dbgrp.ShardGroups[0].StartTime.Unix())
-		verifrt.Observe("end", dbgrp.ShardGroups[0].EndTime.Unix())
-		verifrt.Observe("t1", t1.Unix())
-		verifrt.Observe("contains", dbgrp.ShardGroups[0].Contains(t1))
-		verifrt.Observe("g1nil", g1 == nil)
-	}
 	verifrt.Assert(g1 != nil && g1.Contains(t1), "group created for t1 does not contain t1")
 	verifrt.Assert(g1.EndTime.Sub(g1.StartTime) == d1, "group span differs from the shard-group duration")
 	maxSG, maxShard := data.MaxShardGroupID, data.MaxShardID
@@ -104,7 +132,7 @@ func verifC16TwoGroups(changeDuration bool) {
 		verifrt.Assert(err == nil, "UpdateRetentionPolicy failed")
 		verifrt.Reach("changed")
 	}
-	t2 := verifC16Instant("t2")
+	t2 := verifC16Instant("t2", verifC16Base)
 	err = data.CreateShardGroup("db", "rp", t2, util.Hot, config.TSSTORE, 0)
 	verifrt.Assert(err == nil, "CreateShardGroup(t2) failed")
 	verifC16WellFormed(data, "after second group")
